@@ -102,7 +102,7 @@ pub fn touched(sem: &Sem) -> Vec<String> {
                 }
             }
             Sem::ListIns { .. } | Sem::ListDel { .. } | Sem::GIns { .. } => out.push("list".into()),
-            Sem::Dot { dot } | Sem::Pn { dot, .. } => out.push(format!("actor{}", dot.0)),
+            Sem::Dot { .. } | Sem::Pn { .. } => out.push("counter".into()),
             Sem::Val { .. } | Sem::Lww { .. } => out.push("reg".into()),
             Sem::Merkle { .. } => out.push("dag".into()),
             Sem::None => {}
@@ -148,7 +148,11 @@ pub fn remove_ctx(sem: &Sem) -> Option<&Clock> {
 pub fn has_remote_observed_remove(metas: &[OpMeta]) -> bool {
     metas.iter().any(|m| match remove_ctx(&m.sem) {
         Some(ctx) => ctx.iter().any(|(a, n)| *n > 0 && Some(*a) != m.actor),
-        None => false,
+        None => match &m.sem {
+            // a list delete of an element inserted by another replica
+            Sem::ListDel { tag, .. } => metas.iter().any(|i| matches!(&i.sem, Sem::ListIns { tag: t, .. } if t == tag) && i.author != m.author),
+            _ => false,
+        },
     })
 }
 
